@@ -42,7 +42,7 @@ for id in "$@"; do
   results="$results $id:$rc"
   # keep the first shrunk failure as a regression replay (it must pass on the unchanged tree)
   first=$(grep -o "replay=[^ ]*" "$S/check_$id.log" | head -1 | cut -d= -f2)
-  if [ -n "$first" ] && [ -f "$first" ] && [[ "$first" != *"/regress/"* ]] && [[ "$first" != *"/known/"* ]]; then
+  if [ -n "$first" ] && [ -f "$first" ] && python3 -c "import json,sys;json.load(open(sys.argv[1]))" "$first" 2>/dev/null && [[ "$first" != *"/regress/"* ]] && [[ "$first" != *"/known/"* ]]; then
     mv "$first" "/verif/replays/regress/$id-seed-$DEST.json"
   fi
   for f in $(grep -o "replay=[^ ]*" "$S/check_$id.log" | cut -d= -f2); do
